@@ -154,8 +154,10 @@ static sqfs_object_t *data_reader_copy(const sqfs_object_t *obj)
 	if (copy->frag_tbl == NULL)
 		goto fail_ftbl;
 
+	/* the cached blocks are block_size bytes large and zero padded (see
+	   get_block), the readers index them up to block_size */
 	if (data->data_block != NULL) {
-		copy->data_block = malloc(data->data_blk_size);
+		copy->data_block = alloc_array(1, data->block_size);
 		if (copy->data_block == NULL)
 			goto fail_dblk;
 
@@ -164,7 +166,7 @@ static sqfs_object_t *data_reader_copy(const sqfs_object_t *obj)
 	}
 
 	if (copy->frag_block != NULL) {
-		copy->frag_block = malloc(copy->frag_blk_size);
+		copy->frag_block = alloc_array(1, data->block_size);
 		if (copy->frag_block == NULL)
 			goto fail_fblk;
 
